@@ -49,3 +49,7 @@ Proof. intros H; rewrite map_map; apply map_ext; intros; apply H. Qed.
     distribution per multi-action infoset. *)
 Definition Valid (g : @game RNum) (prof : list R * list R) : Prop :=
   VFlat (arities g true) (fst prof) /\ VFlat (arities g false) (snd prof).
+
+(** chance tables of an accepted game: positive probabilities that sum to one *)
+Definition ChanceOK (g : @game RNum) : Prop :=
+  Forall (fun row => Forall (fun p => 0 < p) row /\ Rsum row = 1) (g_chance g).
